@@ -4,7 +4,7 @@
 From Coq Require Import List ZArith Bool.
 From WebpGen Require Tables Consts.
 From Webp Require Import Vp8.Vp8Bool Vp8.Vp8Tables Vp8.Vp8Syntax Vp8.Vp8Kernels Vp8.Vp8KernelProofs Vp8.Vp8Upsample
-  Vp8.Vp8BoolAbs Vp8.Vp8BoolEnc Vp8.Vp8SyntaxRT Vp8.Vp8TokenRT Vp8.Vp8ModeRT Vp8.Vp8Recon Vp8.Vp8Filter Vp8.Vp8Spec Vp8.Vp8FrameRT.
+  Vp8.Vp8BoolAbs Vp8.Vp8BoolEnc Vp8.Vp8SyntaxRT Vp8.Vp8TokenRT Vp8.Vp8ModeRT Vp8.Vp8Recon Vp8.Vp8Filter Vp8.Vp8Spec Vp8.Vp8FrameRT Vp8.Vp8RowOrder.
 From Webp Require Import Base.Res.
 Import ListNotations.
 Open Scope Z_scope.
@@ -127,6 +127,14 @@ Theorem C04_vp8_emit_decode : forall qk s bs, wf_frame_syn qk s -> emit_key_fram
     dc_unfiltered r = fst (reconstruct qk s) /\ dc_filtered r = snd (reconstruct qk s).
 Proof. exact vp8_emit_decode. Qed.
 Print Assumptions C04_vp8_emit_decode.
+
+(** Filtering row by row right after each macroblock row is reconstructed (from the unfiltered top
+    samples kept aside), as parseFrame does, = filtering after the whole frame is reconstructed. *)
+Theorem C04_row_filter_order_eq : forall qk h simple rows cols above,
+  go_order qk h simple cols above rows =
+  filter_rows simple above (fst (fst (rows_syn qk h cols rows))).
+Proof. exact row_filter_order_eq. Qed.
+Print Assumptions C04_row_filter_order_eq.
 
 (** ** Kernel refinements: the Go decoder's short-cuts against the full definitions *)
 
